@@ -48,7 +48,10 @@ RULE = ("case = (grammar, token string). Grammars: fixed corpus (test-suite gram
         "productions, rhs length <=3, <=3 terminals, epsilon productions, left/right recursion + random perturbations of corpus "
         "grammars + all possibly-empty-list idioms (nullable left/right recursive list after a nonterminal / after a nullable "
         "prefix / before a terminal / alone). After a first-set disagreement the affected nonterminals are also placed in small "
-        "contexts (Z->X N, Z->N x, Z->Y N z with Y nullable) and enumerated. Strings: ALL strings over the grammar's terminals of length <=5 (quick) / <=6 (thorough). distinct = distinct "
+        "contexts (Z->X N, Z->N x, Z->Y N z with Y nullable) and enumerated. Also grammars reached through every public "
+        "editing route before generation (add_production in any order, removal / replacement / insertion of productions, "
+        "rewrite_eps_productions, add_one_or_more): verdicts are taken against the grammar as it is at generation time, with one "
+        "distinct action per production. Strings: ALL strings over the grammar's terminals of length <=5 (quick) / <=6 (thorough). distinct = distinct "
         "(grammar, string); non-trivial grammar = accepted by the builder, accepts a string of length >=2 and rejects some string; "
         "non-trivial case = string of a non-trivial grammar")
 TRUSTED = [
@@ -68,7 +71,7 @@ EOFC, EPSC = 0, 1
 RUNAWAY_LIMIT = 3000
 
 
-class Runaway(Exception):
+class Runaway(BaseException):
     pass
 
 
@@ -78,7 +81,11 @@ class Runaway(Exception):
 class Gr:
     """terms: list of str; prods: list of (lhs, [rhs]); start: str"""
 
-    def __init__(self, terms, prods, start, name=""):
+    def __init__(self, terms, prods, start, name="", edits=None):
+        # edits: None = add_production for every production in order.  Otherwise the list of editing steps
+        # performed on the real Grammar object before the parser is generated (see apply_edits); `prods` is then
+        # only provisional: prepare() replaces the Gr by the grammar AS IT IS at generation time.
+        self.edits = edits
         self.terms = list(terms)
         self.prods = [(l, list(r)) for l, r in prods]
         self.start = start
@@ -101,14 +108,17 @@ class Gr:
             self.code[n] = 2 + len(self.terms) + i
 
     def key(self):
-        return json.dumps([self.terms, self.prods, self.start])
+        return json.dumps([self.terms, self.prods, self.start, self.edits])
 
     def to_json(self):
-        return {"terms": self.terms, "prods": self.prods, "start": self.start, "name": self.name}
+        d = {"terms": self.terms, "prods": self.prods, "start": self.start, "name": self.name}
+        if self.edits is not None:
+            d["edits"] = self.edits
+        return d
 
     @staticmethod
     def from_json(d):
-        return Gr(d["terms"], [tuple(p) for p in d["prods"]], d["start"], d.get("name", ""))
+        return Gr(d["terms"], [tuple(p) for p in d["prods"]], d["start"], d.get("name", ""), d.get("edits"))
 
     def lean(self):
         ts = "[" + ",".join(str(self.code[t]) for t in self.terms) + "]"
@@ -116,7 +126,40 @@ class Gr:
         return f"{ts} {self.code[self.start]} {ps}"
 
     def show(self):
-        return "; ".join(f"{l} -> {' '.join(r) if r else 'eps'}" for l, r in self.prods) + f"  [start {self.start}]"
+        txt = "; ".join(f"{l} -> {' '.join(r) if r else 'eps'}" for l, r in self.prods) + f"  [start {self.start}]"
+        if self.edits is not None:
+            txt += "  {built by: " + ", ".join(show_edit(e) for e in self.edits) + "}"
+        return txt
+
+
+def show_edit(e):
+    if e[0] in ("add", "insert", "replace"):
+        idx = f"[{e[1]}] " if e[0] != "add" else ""
+        l, r = e[-2], e[-1]
+        return f"{e[0]} {idx}{l}->{' '.join(r) if r else 'eps'}"
+    return " ".join(str(x) for x in e)
+
+
+def apply_edits(grammar_mod, G, edits):
+    """the public ways of editing a Grammar before parser generation"""
+    for e in edits:
+        op = e[0]
+        if op == "add":
+            G.add_production(e[1], list(e[2]))
+        elif op == "remove":
+            del G.productions[e[1]]
+        elif op == "replace":
+            G.productions[e[1]] = grammar_mod.Production(e[2], list(e[3]), None)
+            G.nonterminals.add(e[2])
+        elif op == "insert":
+            G.productions.insert(e[1], grammar_mod.Production(e[2], list(e[3]), None))
+            G.nonterminals.add(e[2])
+        elif op == "rewrite_eps":
+            G.rewrite_eps_productions()
+        elif op == "one_or_more":
+            G.add_one_or_more(e[1], e[2])
+        else:
+            raise ValueError("unknown edit " + repr(e))
 
 
 CORPUS = [
@@ -222,6 +265,59 @@ def contexts_around(g, nt):
     return [Gr(used + ts, ps + sub, Z, f"{g.name or 'g'}@{nt}") for ts, ps in shapes]
 
 
+def edited_corpus():
+    """grammars built through every public editing route of Grammar before the parser is generated"""
+    def E(terms, edits, start, name):
+        return Gr(terms, [], start, name, [list(e) for e in edits])
+
+    def add(l, r):
+        return ("add", l, list(r))
+    return [
+        E("abc", [add("S", "OI"), add("O", "c"), add("O", ""), add("I", "a"), add("I", "b"), ("rewrite_eps",)], "S",
+          "edit-rewrite-eps-optional"),
+        E("ab", [add("S", "Lb"), add("L", ""), add("L", "La"), ("rewrite_eps",)], "S", "edit-rewrite-eps-list"),
+        E("abc", [add("X", "c"), add("S", "Ab"), add("A", "a"), ("remove", 0)], "S", "edit-remove-first"),
+        E("abc", [add("S", "AB"), add("J", "c"), add("A", "a"), add("B", "b"), ("remove", 1)], "S", "edit-remove-middle"),
+        E("abc", [add("S", "AB"), add("A", "a"), add("B", "b"), add("B", "c"), ("remove", 3)], "S", "edit-remove-last"),
+        E("abc", [add("S", "Ab"), add("A", "c"), add("A", "b"), ("replace", 1, "A", ["a"])], "S", "edit-replace"),
+        E("ab", [add("A", "a"), add("A", "b"), ("insert", 0, "S", ["A", "b"])], "S", "edit-insert-front"),
+        E("ab", [add("S", "Lb"), add("I", "a"), ("one_or_more", "I", "L")], "S", "edit-one-or-more"),
+        E("()", [add("P", "()"), add("P", "(P)"), add("L", "P"), add("L", "LP"), add("G", "L")], "G", "edit-reverse-order"),
+        E("abc", [add("S", "ABC"), add("A", "a"), add("A", ""), add("B", "b"), add("C", "c"), add("C", ""),
+                  ("rewrite_eps",)], "S", "edit-rewrite-eps-two"),
+    ]
+
+
+def edit_route(rng, g):
+    """a random editing route that ends in (a variant of) grammar g"""
+    adds = [["add", l, list(r)] for l, r in g.prods]
+    nts = list(dict.fromkeys(l for l, _ in g.prods))
+    k = rng.randrange(7)
+    name = g.name + "+edit"
+    if k == 0:
+        rng.shuffle(adds)
+        edits = adds
+    elif k == 1:                           # a junk production is added somewhere and removed again
+        i = rng.randint(0, len(adds))
+        junk = ["add", rng.choice(nts + ["J"]), [rng.choice(g.terms)]]
+        edits = adds[:i] + [junk] + adds[i:] + [["remove", i]]
+    elif k == 2 and adds:                  # placeholder, later replaced by the real production
+        i = rng.randrange(len(adds))
+        real = adds[i]
+        edits = adds[:i] + [["add", real[1], [rng.choice(g.terms)]]] + adds[i + 1:] + [["replace", i, real[1], real[2]]]
+    elif k == 3:
+        edits = adds + [["rewrite_eps"]]
+    elif k == 4 and len(adds) > 1:         # a real production is removed
+        edits = adds + [["remove", rng.randrange(len(adds))]]
+    elif k == 5 and adds:                  # one production is inserted afterwards at its place
+        i = rng.randrange(len(adds))
+        edits = adds[:i] + adds[i + 1:] + [["insert", i, adds[i][1], adds[i][2]]]
+    else:
+        elem = rng.choice(g.terms + nts)
+        edits = adds + [["one_or_more", elem, "M"], ["add", g.start, ["M"] + ([rng.choice(g.terms)] if rng.random() < 0.5 else [])]]
+    return Gr(g.terms, [], g.start, name, edits)
+
+
 def random_grammar(rng):
     nt = rng.randint(1, 4)
     tt = rng.randint(1, 3)
@@ -320,8 +416,36 @@ def build(mods, g):
                     raise Runaway()
                 return ("n", i) + tuple(("l", a.typ, a.val) if isinstance(a, Token) else a for a in args)
             return f
-        for i, (l, r) in enumerate(g.prods):
-            G.add_production(l, r, mk(i))
+        if g.edits is None:
+            for i, (l, r) in enumerate(g.prods):
+                G.add_production(l, r, mk(i))
+        else:
+            import signal
+
+            def alarm(*_):
+                raise Runaway()
+            old = signal.signal(signal.SIGALRM, alarm)
+            signal.setitimer(signal.ITIMER_REAL, 3.0)
+            try:
+                apply_edits(grammar, G, g.edits)
+            except (Exception, Runaway) as e:  # noqa  -- the editing route itself failed (e.g. assert in create_combinations)
+                b.status = "route-error"
+                b.error = type(e).__name__
+                return b
+            finally:
+                signal.setitimer(signal.ITIMER_REAL, 0)
+                signal.signal(signal.SIGALRM, old)
+            # the grammar AS IT IS now; one distinct action per production (its position at generation time)
+            final = [(p.name, list(p.symbols)) for p in G.productions]
+            if not final or len(final) > 12:
+                b.status = "route-error"
+                b.error = "empty-or-too-large"
+                return b
+            for i, p in enumerate(G.productions):
+                p.f = mk(i)
+            start = g.start if any(l == g.start for l, _ in final) else final[0][0]
+            g = Gr(g.terms, final, start, g.name, g.edits)
+            b.g = g
         G.start_symbol = g.start
         b.G = G
         pb = lr.LrParserBuilder(G)
@@ -339,7 +463,7 @@ def build(mods, g):
         b.status = "rejected"
         b.error = str(e)[:120]
         return b
-    except Exception as e:  # noqa
+    except (Exception, Runaway) as e:  # noqa
         b.status = "internal"
         b.error = type(e).__name__ + ": " + str(e)[:120]
         return b
@@ -395,8 +519,8 @@ def dump_tables(mods, g, action_table, goto_table, problems=None):
 
 def show_val(g, v):
     """canonical text of a value built by the harness actions = Drivers.C32.showTree"""
-    if v is None:
-        return "None"
+    if not isinstance(v, tuple) or len(v) < 2:
+        return repr(v)
     if v[0] == "l":
         val = 0 if v[2] == "EOF" else v[2]
         return f"{g.code.get(v[1], 999)}.{val}"
@@ -404,6 +528,9 @@ def show_val(g, v):
 
 
 def enc_val(g, v, out):
+    if not isinstance(v, tuple) or len(v) < 2:
+        out += [7]          # not a tree: the Lean reader rejects it
+        return out
     if v[0] == "l":
         out += [1, g.code.get(v[1], 999), 0 if v[2] == "EOF" else v[2]]
     else:
@@ -437,14 +564,13 @@ def first_text(g, first):
     items = []
     for k, v in first.items():
         if k not in g.code:
+            if not v:
+                continue     # name of a removed production is still in grammar.nonterminals: empty entry, ignored
             return "unknown-symbol " + str(k)
-        items.append((g.code[k], sorted(g.code[x] for x in v)))
+        items.append((g.code[k], sorted(g.code.get(x, 999) for x in v)))
     return ";".join(f"{k}:" + ",".join(map(str, v)) for k, v in sorted(items))
 
 
-# --------------------------------------------------------------------------------------------
-# one grammar: requests, then evaluation
-# --------------------------------------------------------------------------------------------
 def damaged_tables(rng, mods, b, ndamaged=3):
     """a few copies of the real tables with one entry changed (error paths of the driver)"""
     lr = mods[0]
@@ -559,9 +685,15 @@ def prepare(ctx, mods, g, n, rng, with_damage):
     c.hist_len = len(hist)          # the grammars built before this one in this process
     hist.append(g)
     c.b = build(mods, g)
+    g = c.g = c.b.g                 # for edited grammars: the grammar as it was when the parser was generated
     c.table_problems = []
     c.tables = None
     c.reqs = []
+    c.first_impl = c.impl = None
+    c.damaged = []
+    c.strings = []
+    if c.b.status == "route-error":
+        return c
     c.strings = list(all_strings(g.terms, n))
     gl = g.lean()
     c.reqs.append(("lang", f"lang {gl} {n}"))
@@ -607,6 +739,13 @@ def evaluate(ctx, c, replies):
     """replies: dict kind -> list of reply strings (in request order)"""
     g, b = c.g, c.b
     case = {"grammar": g.to_json(), "maxlen": c.n}
+    if b.status == "route-error":
+        ctx.count("edit_route_error_" + b.error)
+        return
+    if g.edits is not None:
+        ctx.count("edited_grammars")
+        for e in g.edits:
+            ctx.count("edit_" + e[0])
     lang = replies["lang"][0]
     if not lang.startswith("ok ") or "F" in lang or len(lang) - 3 != len(c.strings):
         ctx.broken.append({"kind": "oracle", "msg": "recogniser reply " + lang[:80], "case": case})
@@ -745,7 +884,7 @@ def run_cases(ctx, mods, grammars, n, rng, with_damage=True, workers=8):
         from concurrent.futures import ThreadPoolExecutor
         with ThreadPoolExecutor(workers) as ex:
             outs = list(ex.map(ask, slices))
-    replies = {}
+    replies = {id(c): {} for c in cases}
     for sl, out in zip(slices, outs):
         k = 0
         for c in sl:
@@ -765,13 +904,13 @@ def run_cases(ctx, mods, grammars, n, rng, with_damage=True, workers=8):
 
 def grammars_for(ctx):
     rng = ctx.rng
-    gs = list(CORPUS) + list_idioms(ctx.thorough)
+    gs = list(CORPUS) + list_idioms(ctx.thorough) + edited_corpus()
     extra = VERIF / "corpus" / "C32"
     if extra.exists():
         for f in sorted(extra.glob("*.json")):
             gs.append(Gr.from_json(json.loads(f.read_text())))
-    nrand = 500 if ctx.thorough else 60
-    npert = 250 if ctx.thorough else 40
+    nrand = 500 if ctx.thorough else 50
+    npert = 250 if ctx.thorough else 30
     seen = {g.key() for g in gs}
     for _ in range(nrand):
         g = random_grammar(rng)
@@ -779,6 +918,14 @@ def grammars_for(ctx):
             seen.add(g.key())
             gs.append(g)
     pool = CORPUS + list_idioms()
+    for _ in range(200 if ctx.thorough else 45):      # grammars reached through an editing route
+        base = rng.choice(pool) if rng.random() < 0.6 else random_grammar(rng)
+        if rng.random() < 0.3:
+            base = perturb(rng, base)
+        g = edit_route(rng, base)
+        if g.key() not in seen:
+            seen.add(g.key())
+            gs.append(g)
     for _ in range(npert):
         g = perturb(rng, rng.choice(pool))
         if rng.random() < 0.4:
